@@ -381,6 +381,15 @@ def make_methods(log: Log, is_async: bool) -> Dict[str, Callable[..., Any]]:
     pd_even.__annotations__ = {'n': _t.Annotated[int, _pd.AfterValidator(_even)]}
     fac['pd_even'] = pd_validator.validate(pd_even)
 
+    def pd_span(d):
+        log.calls.append(('pd_span', (d.total_seconds(),), {}))
+        return ['pd_span', d.total_seconds()]
+
+    # a bound on a type pydantic converts BEFORE it checks the bound: the error details name a converted (non-JSON) value
+    import datetime as _dt
+    pd_span.__annotations__ = {'d': _t.Annotated[_dt.timedelta, _pd.Field(gt=_dt.timedelta(0))]}
+    fac['pd_span'] = pd_validator.validate(pd_span)
+
     def pd_kw(a, **kw):
         # variadic keywords under the pydantic validator (only used by C13's used-vs-fresh comparison)
         log.calls.append(('pd_kw', (a,), dict(kw)))
@@ -496,6 +505,11 @@ def make_view(log: Log, is_async: bool, plain_only: bool = False):
             log.calls.append(('view._hidden', (), {}))
             return 'hidden'
 
+        def note(self, message, context=None):
+            # `context` is an ordinary JSON-RPC parameter of this method (the view's own context arrives through __init__)
+            log.calls.append(('view.note', (message, context), {}))
+            return ['note', message, context]
+
         @classmethod
         def cm(cls, a, b=0):
             log.calls.append(('view.cm', (a, b), {}))
@@ -544,7 +558,7 @@ def make_broken_view(log: Log, is_async: bool):
 
 METHOD_NAMES = ('js_checked', 'js_loose', 'slowfail', 'byid', 'wrapped', 'whoami', 'ctxp', 'slow', 'fac1', 'fac2', 'ok', 'noargs', 'echo', 'kwonly', 'rpcerr', 'typed', 'boom', 'ctxm', 'view.vm', 'typedctor', 'raiselib', 'pd_pos', '_under',
                 'ns._dotted', 'cowrapped', 'js_draft4', 'window', 'mutate', 'broken.vm', 'odd_defaults', 'tc_only',
-                'pd_strip', 'view.cm', 'view.sm', 'cnt.bump', 'pd_even', 'js_list', 'ctxm_plain')
+                'pd_strip', 'view.cm', 'view.sm', 'cnt.bump', 'pd_even', 'js_list', 'ctxm_plain', 'pd_span', 'view.note')
 
 
 def build_registry(log: Log, coroutines: bool) -> 'pjrpc.server.MethodRegistry':
